@@ -55,15 +55,17 @@ End DCheck.
 (* ---------- prunecf ---------- *)
 
 Inductive pcase :=
-| PPrune (id : nat) (t : tree) (out : result tree).
+| PPrune (id : nat) (t : tree) (out : result tree)
+| PPruneAt (id : nat) (cs' : cside) (t : tree) (out : result tree).   (* a struct inside the tree, with the side table of its own type *)
 
 Section PCheck.
   Variable cs : cside.
   Definition pcase_ok (c : pcase) : bool :=
     match c with
     | PPrune _ t out => result_eqb tree_eqb (Ok (prune_config_false cs t)) out
+    | PPruneAt _ cs' t out => result_eqb tree_eqb (Ok (prune_config_false cs' t)) out
     end.
-  Definition pcase_id (c : pcase) : nat := match c with PPrune i _ _ => i end.
+  Definition pcase_id (c : pcase) : nat := match c with PPrune i _ _ => i | PPruneAt i _ _ _ => i end.
   Definition pmismatches (l : list pcase) : list nat := map pcase_id (filter (fun c => negb (pcase_ok c)) l).
 End PCheck.
 
